@@ -603,11 +603,29 @@ pub fn c05(out: &mut Out, thorough: bool) {
             }
         }
     }
+    let extra = special_successors(&ps, &mut rng, if thorough { 60_000 } else { 3_000 });
+    ps.extend(extra);
     for t in ps.iter() {
         let b = t.board;
         let v = view(&b);
         let p = pos64(&v);
         let nt = nontrivial(&v);
+        // the board as played and the board read back from its own text: same hash, same derived state
+        if v.half <= 9999 && v.full <= 9999 {
+            out.case("played-vs-read-back", nt, format!("expect same {p} #read-back"), || match chess_movegen::fen::parse_fen(format!("{b}").as_bytes()) {
+                Ok(r) => {
+                    let rv = view(&r);
+                    if rv != v {
+                        format!("differs:{}:{}", pos64(&rv), derived(&rv))
+                    } else if r != b || r.zobrist() != b.zobrist() {
+                        "differs:eq-or-zobrist".into()
+                    } else {
+                        "same".into()
+                    }
+                }
+                Err(e) => format!("differs:rejected:{}", err_kind(&e)),
+            });
+        }
         // board -> text (exact bytes must match the model's writer)
         out.case("display", nt, format!("fen show {p}"), || hexbytes(format!("{b}").as_bytes()));
         // board -> text -> board
@@ -1288,6 +1306,8 @@ pub fn c07(out: &mut Out, thorough: bool) {
             }
         }
     }
+    // parsing: no byte string may panic a text parser
+    crate::small::text_parsers_no_panic(out);
     // walking the opening book (whole book, the empty book, every node's children read to the end)
     crate::tables::c17(out, thorough);
     out.exhaustive = false;
